@@ -143,7 +143,6 @@ func (commander *Commander) exec(ctx context.Context, parameters Parameters, scr
 			WithPostings(result.Postings...).
 			WithMetadata(result.Metadata).
 			WithDate(script.Timestamp).
-			WithID(commander.nextTXID(parameters.DryRun)).
 			WithReference(script.Reference)
 
 		log := logComputer(tx, result.AccountMetadata)
@@ -151,7 +150,8 @@ func (commander *Commander) exec(ctx context.Context, parameters Parameters, scr
 			log = log.WithIdempotencyKey(parameters.IdempotencyKey)
 		}
 
-		chainedLog, done, err := executionContext.AppendLog(ctx, log)
+		// the transaction gets its id when its log is chained
+		chainedLog, done, err := executionContext.AppendLog(ctx, log, tx)
 		if err != nil {
 			return nil, nil, err
 		}
@@ -215,7 +215,7 @@ func (commander *Commander) SaveMeta(ctx context.Context, parameters Parameters,
 			log = log.WithIdempotencyKey(parameters.IdempotencyKey)
 		}
 
-		return executionContext.AppendLog(ctx, log)
+		return executionContext.AppendLog(ctx, log, nil)
 	})
 	if err != nil {
 		return err
@@ -282,29 +282,30 @@ func (commander *Commander) Close() {
 	commander.running.Wait()
 }
 
-// chainLog chains the log and hands it to the batcher in one critical section,
-// so that logs reach the store in the order of their ids.
-func (commander *Commander) chainLog(log *ledger.Log, onPersisted func()) *ledger.ChainedLog {
+// chainLog gives the transaction carried by the log (if any) its id, chains the log
+// and hands it to the batcher, all in one critical section: transaction ids and
+// log ids advance together, and logs reach the store in the order of their ids.
+func (commander *Commander) chainLog(log *ledger.Log, tx *ledger.Transaction, onPersisted func()) *ledger.ChainedLog {
 	commander.mu.Lock()
 	defer commander.mu.Unlock()
 
+	if tx != nil {
+		commander.lastTXID = big.NewInt(0).Add(commander.lastTXID, big.NewInt(1))
+		tx.ID = commander.lastTXID
+	}
 	commander.lastLog = log.ChainLog(commander.lastLog)
 	commander.Append(commander.lastLog, onPersisted)
+
 	return commander.lastLog
 }
 
-// nextTXID returns the id of the next transaction. A preview gets the id the
-// real write would get, without consuming it.
-func (commander *Commander) nextTXID(preview bool) *big.Int {
+// nextTXID returns the id the next transaction will get, without consuming it
+// (what a dry run reports).
+func (commander *Commander) nextTXID() *big.Int {
 	commander.mu.Lock()
 	defer commander.mu.Unlock()
 
-	ret := big.NewInt(0).Add(commander.lastTXID, big.NewInt(1))
-	if !preview {
-		commander.lastTXID = ret
-	}
-
-	return ret
+	return big.NewInt(0).Add(commander.lastTXID, big.NewInt(1))
 }
 
 func (commander *Commander) DeleteMetadata(ctx context.Context, parameters Parameters, targetType string, targetID any, key string) error {
@@ -338,7 +339,7 @@ func (commander *Commander) DeleteMetadata(ctx context.Context, parameters Param
 			log = log.WithIdempotencyKey(parameters.IdempotencyKey)
 		}
 
-		return executionContext.AppendLog(ctx, log)
+		return executionContext.AppendLog(ctx, log, nil)
 	})
 	if err != nil {
 		return err
